@@ -325,9 +325,10 @@ def run_property(pid, items, bounded=(), tier='quick', seed=0, level='proof', tr
         'property_id': pid, 'tier': tier, 'seed': int(seed), 'level': level if (level != 'proof' or n_obl) else 'exploration',
         'coverage': cov, 'assumptions': list(assumptions), 'wall_s': round(wall, 2), 'violations': len(violations),
     }
-    os.makedirs(os.path.join(VERIF, 'evidence'), exist_ok=True)
-    with open(os.path.join(VERIF, 'evidence', pid + '.json'), 'w') as f:
-        json.dump(evidence, f, indent=1, default=repr)
+    if os.environ.get('PYVC_NO_EVIDENCE') != '1':        # the mutant gate runs checks on rewritten sources: those runs are not evidence
+        os.makedirs(os.path.join(VERIF, 'evidence'), exist_ok=True)
+        with open(os.path.join(VERIF, 'evidence', pid + '.json'), 'w') as f:
+            json.dump(evidence, f, indent=1, default=repr)
     # ---------------------------------------------------------------- report
     print('%s [%s] contracts=%d obligations=%d discharged=%d (%s) bounded=%d tool-limits=%d undecided=%d  %.1fs' % (
         pid, tier, len(items), n_obl, discharged, ', '.join('%s:%d' % kv for kv in sorted(by_backend.items())) or '-',
